@@ -436,3 +436,107 @@ def linear_sum(forms):
             cur = tot.get(k, (0.0, x))
             tot[k] = (cur[0] + c, x)
     return {k: v for k, v in tot.items() if abs(v[0]) > 1e-12}
+
+
+# ------------------------------------------------------------- sharing rules
+def shared(modname, fn_name, new_rule, keep=None):
+    """A rule of another property re-issued under this property's id (optionally only the constructs `keep` accepts)."""
+
+    def rule(ctx):
+        import importlib
+
+        mod = importlib.import_module("sa.rules.%s" % modname)
+        for o in getattr(mod, fn_name)(ctx):
+            if keep is None or keep(o):
+                o.rule = new_rule
+                yield o
+
+    rule.__doc__ = "shared with %s.%s" % (modname, fn_name)
+    return rule
+
+
+# ---------------------------------------------------------------- dtype flow
+_INHERIT = {"np.array", "np.copy", ".copy", "np.asarray", "np.zeros_like", "np.empty_like", "np.ones_like", "np.full_like", "np.asanyarray"}
+_REAL_FUNCS = {"np.log", "np.log2", "np.log10", "np.exp", "np.sqrt", "np.mean", "np.median", "np.divide", "np.true_divide", "np.interp", "np.std", "np.var", "np.average"}
+
+
+def _origin(t):
+    n = 0
+    while t is not None and t.op in ("upd", "loop", "loopvar", "ite") and n < 60:
+        n += 1
+        if t.op == "upd":
+            t = t.a[0]
+        elif t.op in ("loop", "loopvar"):
+            t = t.a[2]
+        else:
+            t = t.a[1]
+    return t
+
+
+def _int_preserving(v, buf_origin):
+    """is the stored value certainly representable in the buffer's (inherited) dtype?  Integer / Boolean literals and
+    elements of the buffer or of its source array are; anything computed with real-valued operations is not."""
+    v0 = v
+    if v.op == "const":
+        c = v.a[0]
+        return isinstance(c, (bool, int)) or c is None or (isinstance(c, float) and c.is_integer())
+    src = None
+    if buf_origin is not None and buf_origin.op == "call" and buf_origin.a[1]:
+        src = buf_origin.a[1][0]
+    for x in tm.walk(v0):
+        if x.op == "const" and isinstance(x.a[0], float) and not x.a[0].is_integer():
+            return False
+        if x.op == "bin" and x.a[0] in ("/", "**"):
+            return False
+        if x.op == "call" and call_name(x) in _REAL_FUNCS:
+            return False
+        if x.op == "param":
+            # another input flows in: its dtype need not be the buffer's
+            if src is None or x.a[0] not in tm.params_of(src):
+                return False
+    return True
+
+
+def rule_dtypeflow(R, modules=None):
+    """Integer-valued inputs (lists of ints, integer arrays) are valid wherever numbers are: a buffer that inherits its
+    dtype from an input (np.array(x), x.copy(), np.zeros_like(x), ...) may only be written with integer literals or
+    with elements of that same input, and no array is cast to the dtype of another input.  A real-valued result stored
+    into such a buffer is silently truncated for integer input and bit-identical for float input - which is why the
+    test-suite never sees it."""
+
+    def rule(ctx):
+        n = 0
+        per = {}
+        for f in ctx.program.all_funcs():
+            mod = f.qual.split(".")[0]
+            if mod in ("sonify", "display") or (modules is not None and mod not in modules):
+                continue
+            s = ctx.S.get(f.qual)
+            for m in s.by_kind("mutate"):
+                if m.how != "setitem" or m.d.get("old") is None:
+                    continue
+                o = _origin(m.old)
+                if o is None or o.op != "call" or call_name(o) not in _INHERIT:
+                    continue
+                if any(k == "dtype" for k, _ in o.a[2]) or (call_name(o) in ("np.array", "np.asarray") and len(o.a[1]) > 1):
+                    continue
+                if not tm.params_of(o):
+                    continue
+                n += 1
+                per[(f.qual, m.root)] = per.get((f.qual, m.root), 0) + 1
+                k = per[(f.qual, m.root)]
+                good = _int_preserving(m.val, o)
+                yield ob(R, f, "%s:store[%s]%s" % (f.qual, m.root, "" if k == 1 else "#%d" % k), good, "the buffer %s = %s inherits the dtype of its input and is written with %s" % (m.root, tm.show(o, 2), "an integer literal or elements of that input" if good else "%s - a real-valued / foreign result that is truncated when the caller passes an integer array" % tm.show(m.val, 3)), node=m.node)
+            for c in s.calls():
+                if c.callee in ("np.asarray", "np.array", ".astype", "np.asanyarray", "np.zeros", "np.empty", "np.full"):
+                    dt = dict(c.kw).get("dtype")
+                    if dt is None and c.callee == ".astype" and len(c.args) > 1:
+                        dt = c.args[1]
+                    if dt is not None and dt.op == "attr" and dt.a[1] == "dtype" and tm.params_of(dt.a[0]):
+                        data = c.args[0] if c.args else None
+                        other = data is None or not (tm.params_of(dt.a[0]) <= tm.params_of(data)) or not tm.params_of(data)
+                        if other:
+                            yield ob(R, f, "%s:cast-to-dtype-of[%s]" % (f.qual, ",".join(sorted(tm.params_of(dt.a[0])))), False, "%s is cast to the dtype of another input (%s): an integer array on that side truncates the values on this side" % (tm.show(data, 2) if data is not None else "a new array", tm.show(dt, 2)), node=c.node)
+        yield ob(R, "mir_eval/", "dtype-flow:census", True, "%d stores into input-typed buffers examined" % n)
+
+    return rule
